@@ -148,6 +148,23 @@ def property_checks(inp):
         A(("cog: stack = depth-1 stacks (threshold)", nandiff(cs, cs1), 1e-12))
         cb = cen.brightest_pixel(st.copy(), inp["frac"])
         A(("brightest pixel: stack = frames alone", nandiff(cb, numpy.array([cen.brightest_pixel(f.copy(), inp["frac"]) for f in st]).T), 1e-12))
+        # the caller's arrays are still what they were, and a later call on the SAME stack (other threshold, other centroider)
+        # gives what it gives on the frames alone -- nothing is left behind in the data between calls
+        sx = numpy.abs(npr.normal(size=(max(nf, 2), ny, nx))) + 0.1
+        keep = sx.copy()
+        h1 = cen.centre_of_gravity(sx, threshold=inp["thr"])
+        h2 = cen.centre_of_gravity(sx)
+        h3 = cen.brightest_pixel(sx, inp["frac"])
+        h4 = cen.correlation_centroid(sx, sx[0], threshold=inp["thr"] / 2)
+        h5 = cen.centre_of_gravity(sx, threshold=inp["thr"] / 3)
+        A(("centroiders leave the stack they are given untouched", 0.0 if numpy.array_equal(sx, keep) else 1.0, 0.0))
+        A(("a sequence of centroider calls on one stack gives what each call gives on a fresh copy",
+           max(nandiff(h2, cen.centre_of_gravity(keep.copy())), nandiff(h3, cen.brightest_pixel(keep.copy(), inp["frac"])),
+               nandiff(h4, cen.correlation_centroid(keep.copy(), keep[0].copy(), threshold=inp["thr"] / 2)), nandiff(h5, cen.centre_of_gravity(keep.copy(), threshold=inp["thr"] / 3)),
+               nandiff(h1, cen.centre_of_gravity(keep.copy(), threshold=inp["thr"]))), 0.0))
+        f2 = numpy.abs(npr.normal(size=(ny, nx))) + 0.1; k2 = f2.copy()
+        cen.centre_of_gravity(f2, threshold=inp["thr"]); cen.brightest_pixel(f2, inp["frac"]); cen.correlation_centroid(f2, f2, threshold=0.2); cen.quadCell(f2[:2, :2])
+        A(("centroiders leave the single frame they are given untouched", 0.0 if numpy.array_equal(f2, k2) else 1.0, 0.0))
         # quad cell mirror
         q = numpy.abs(npr.normal(size=(2, 2)))
         A(("quad cell changes sign under mirroring", float(numpy.abs(cen.quadCell(q[:, ::-1].copy())[0] + cen.quadCell(q.copy())[0]) + numpy.abs(cen.quadCell(q[::-1].copy())[1] + cen.quadCell(q.copy())[1])), 1e-12))
